@@ -80,6 +80,8 @@ func RangeMap[M ~map[K]V, K comparable, V any](m M, site string) iter.Seq2[K, V]
 type File interface {
 	io.Reader
 	io.Writer
+	WriteString(s string) (int, error)
+	Name() string
 	Sync() error
 	Close() error
 }
@@ -88,7 +90,9 @@ type File interface {
 var FS interface {
 	Create(name string) (File, error)
 	Open(name string) (File, error)
+	OpenFile(name string, flag int, perm os.FileMode) (File, error)
 	Rename(oldpath, newpath string) error
+	Remove(name string) error
 }
 
 func OsCreate(name string) (File, error) {
@@ -103,6 +107,41 @@ func OsOpen(name string) (File, error) {
 		return FS.Open(name)
 	}
 	return os.Open(name)
+}
+
+func OsOpenFile(name string, flag int, perm os.FileMode) (File, error) {
+	if FS != nil {
+		return FS.OpenFile(name, flag, perm)
+	}
+	return os.OpenFile(name, flag, perm)
+}
+
+func OsRemove(name string) error {
+	if FS != nil {
+		return FS.Remove(name)
+	}
+	return os.Remove(name)
+}
+
+func OsReadFile(name string) ([]byte, error) {
+	f, err := OsOpen(name)
+	if err != nil {
+		return nil, err
+	}
+	defer f.Close()
+	return io.ReadAll(f)
+}
+
+func OsWriteFile(name string, data []byte, perm os.FileMode) error {
+	f, err := OsOpenFile(name, os.O_WRONLY|os.O_CREATE|os.O_TRUNC, perm)
+	if err != nil {
+		return err
+	}
+	_, err = f.Write(data)
+	if err1 := f.Close(); err1 != nil && err == nil {
+		err = err1
+	}
+	return err
 }
 
 func OsRename(oldpath, newpath string) error {
